@@ -259,6 +259,35 @@ def gen_two_sessions(r, backend, length):
     return prog
 
 
+def l1_set_seen(part, r, n):
+    """which data items make a FETCH set \\Seen: `FetchAttribute.set_seen` on parsed items vs RFC 3501 6.4.5 / RFC 3516 as `l3.sets_seen` states it - every
+    shape of section, partial, part number, header list, with and without .PEEK, in any letter case"""
+    from pymap.parsing import Params
+    from pymap.parsing.exceptions import NotParseable
+    from pymap.parsing.specials import FetchAttribute
+    sections = ['', 'HEADER', 'TEXT', '1', '1.2', '1.MIME', '2.HEADER', '1.TEXT', 'HEADER.FIELDS (SUBJECT)', 'HEADER.FIELDS.NOT (X-A "q q")', '1.HEADER.FIELDS (TO)']
+    for _ in range(n):
+        x = r.random()
+        if x < 0.6:
+            base = r.choice(['BODY', 'BODY.PEEK', 'BINARY', 'BINARY.PEEK', 'BINARY.SIZE'])
+            sec = r.choice(sections if base.startswith('BODY') else ['', '1', '1.2'])
+            txt = f'{base}[{sec}]' + (r.choice(['', '', '<0.5>', '<3.1>']) if base != 'BINARY.SIZE' else '')
+        else:
+            txt = r.choice(['RFC822', 'RFC822.TEXT', 'RFC822.HEADER', 'RFC822.SIZE', 'FLAGS', 'UID', 'INTERNALDATE', 'ENVELOPE', 'BODY', 'BODYSTRUCTURE', 'EMAILID', 'THREADID'])
+        spelled = ''.join(ch.lower() if r.random() < 0.3 else ch for ch in txt)
+        try:
+            attr, _ = FetchAttribute.parse(memoryview(spelled.encode() + b' '), Params())
+        except NotParseable:
+            part.stat('l1-set-seen:unparsed')
+            continue
+        want = l3.sets_seen([txt])
+        part.stat('l1-set-seen')
+        part.case(key='seen:' + spelled, nontrivial='[' in txt)
+        if bool(attr.set_seen) != want:
+            part.violation('monitor', f'FETCH {spelled}: set_seen = {bool(attr.set_seen)}; RFC 3501 6.4.5 / RFC 3516: {"sets" if want else "does not set"} \\Seen', dict(level='L1', attribute=spelled),
+                           signature='l1-set-seen')
+
+
 def worker(job):
     seed, ncases, maxlen, corpus = job
     r = random.Random(seed)
@@ -273,6 +302,8 @@ def worker(job):
         cases.append((backend, prog))
     run_cases(part, cases)
     l1_seq(part, random.Random(seed + 3), ncases * 20)
+    with guarded(part, 'C10 L1 set_seen', dict(level='L1', seed=seed)):
+        l1_set_seen(part, random.Random(seed + 4), ncases * 10)
     return part.result()
 
 
